@@ -74,15 +74,19 @@ Fixpoint split_ok (h : shdr) (idx : Z) (bl : list (shdr * list N)) : bool :=
     Bool.eqb (s_r bh) (s_r h) && Bool.eqb (s_w bh) (s_w h) && split_ok h (idx + 1) r
   end.
 
-(* reference reassembly: data accumulates per system id until a block carries the end bit *)
-Fixpoint ref_reasm (acc : list (Z * list N)) (bl : list (shdr * list N)) : list (option (shdr * list N)) :=
+(* reference reassembly: data accumulates per message - E4 tells the blocks of a message by system bytes, stream, function and W-bit (a
+   primary of the peer may carry the system bytes of a reply to us) - until a block carries the end bit *)
+Definition mkey := (Z * Z * Z * bool)%type.
+Definition mkey_eqb (a b : mkey) : bool :=
+  match a, b with (s1, t1, f1, w1), (s2, t2, f2, w2) => (s1 =? s2) && (t1 =? t2) && (f1 =? f2) && Bool.eqb w1 w2 end.
+Fixpoint ref_reasm (acc : list (mkey * list N)) (bl : list (shdr * list N)) : list (option (shdr * list N)) :=
   match bl with
   | [] => []
   | (h, d) :: r =>
-    let k := s_system h in
+    let k : mkey := (s_system h, s_stream h, s_function h, s_w h) in
     (* a block numbered 0 or 1 starts a message: what an abandoned attempt left behind does not count *)
-    let prev := if (s_block h <=? 1) then [] else match find (fun p => fst p =? k) acc with Some p => snd p | None => [] end in
-    let rest := filter (fun p => negb (fst p =? k)) acc in
+    let prev := if (s_block h <=? 1) then [] else match find (fun p => mkey_eqb (fst p) k) acc with Some p => snd p | None => [] end in
+    let rest := filter (fun p => negb (mkey_eqb (fst p) k)) acc in
     if s_e h then Some (h, prev ++ d) :: ref_reasm rest r
     else None :: ref_reasm ((k, prev ++ d) :: rest) r
   end.
